@@ -133,7 +133,42 @@ def merge_parts(parts, rule):
     return cov
 
 
+def corpus_part(prop):
+    """the seconds-long replay tier: minimal tapes that once exposed a (seeded or real) defect must pass on the tree under test"""
+    d = D.ROOT / 'corpus' / 'regress' / prop
+    tapes = sorted(d.glob('*.tape')) if d.exists() else []
+    if not tapes:
+        return None
+    t0 = time.time()
+    units = {u.name: u for u in all_units()}
+    todo = []
+    for t in tapes:
+        first = t.read_text().split('\n', 1)[0]
+        kv = dict(x.split('=', 1) for x in first.split('#')[0].split() if '=' in x)
+        if kv.get('config') in units:
+            todo.append((t, units[kv['config']]))
+    exes = D.ensure_built([u for _, u in todo])
+    viol, samples = [], []
+
+    def one(tu):
+        t, u = tu
+        rc, out, err = IC.replay_once(exes[u.name], prop, t)
+        return t, rc, out, err
+    for t, rc, out, err in D.pool_map(one, todo):
+        if rc != 0:
+            msg = out.strip().split('msg=', 1)[-1] if 'msg=' in out else IC.crash_signature(err)
+            viol.append((str(t), 'regression tape fails: ' + msg[:300]))
+        elif len(samples) < 3:
+            samples.append(t.read_text()[:300])
+    cov = {'evaluations': len(todo), 'distinct_nontrivial': len(todo), 'rule': 'replay of the committed minimal tapes under corpus/regress/%s (each once failed on a defective tree)' % prop,
+           'samples': samples, 'exhaustive': False}
+    return Part('regression_replays', cov, viol, time.time() - t0)
+
+
 def finish(prop, tier, seed, level, parts, rule, assumptions, t0):
+    cp = corpus_part(prop)
+    if cp is not None:
+        parts = [cp] + list(parts)
     viol = []
     known_hits = []
     for p in parts:
